@@ -201,7 +201,13 @@ fn search() {
         return;
     }
     let mut found = 0;
+    // two cases lie outside the quantifier of C14 / C12 (configuration errors stated as preconditions in unit.vrs: a symbol length of 0,
+    // max_transfer_count == 0 with a carousel); they stay replayable and run in the search only on request
+    let with_precondition_cases = std::env::var("VERIF_PRECONDITION_CASES").is_ok();
     for c in CASES.iter() {
+        if !with_precondition_cases && (*c == "empty_symbol_length_zero" || *c == "carousel_max0_counter_grows") {
+            continue;
+        }
         if run_case(c) {
             found += 1;
         }
